@@ -181,6 +181,10 @@ fn fault_kinds_for(point: &TxPoint) -> Vec<FaultKind> {
     if point.cmd == Cmd::Registration && point.reply_idx == 1 {
         v.push(FaultKind::AbortReply);
     }
+    // every well-formed packet of the list that is outside this exchange's reply set at this point
+    for i in 0..UNEXPECTED.len() as u8 {
+        v.push(FaultKind::Unexpected(i));
+    }
     v
 }
 
@@ -236,7 +240,7 @@ pub fn run(ctx: &Ctx, id: &str) -> i32 {
     let quick = ctx.quick();
     report.exhaustive = Some(true);
     if id == "C09" {
-        report.rule = "every public operation {new, configure, read_card, begin, commit, cancel} is first run fault-free to number its terminal->client packets (handshake, acks, intermediate packets, clean-up exchanges included); then re-run with one fault at every position x kind {close, garbage, NACK, foreign control field, silence, wrong serial / bare completion (system-info reply), a well-formed Abort where the reply set has none (registration reply)} and with refused connection attempts; all pairs of faults for the shorter operations and sampled pairs/triples otherwise; each followed by a further operation. Also: a terminal reporting the serial in the other letter case, and 1 ms..1 s delays between and inside packets (non-faults: the operation must succeed without reconnecting). Oracle: connection checker R1-R4 (DESIGN D.4) over the per-connection event log. Non-trivial = every faulty run; single faults are a duplicate-free enumeration, multi-fault runs hashed.".into();
+        report.rule = "every public operation {new, configure, read_card, begin, commit, cancel} is first run fault-free to number its terminal->client packets (handshake, acks, intermediate packets, clean-up exchanges included); then re-run with one fault at every position x kind {close, garbage, NACK, foreign control field, silence, wrong serial / bare completion (system-info reply), a well-formed Abort where the reply set has none (registration reply), and each of 7 well-formed packets (abort, completion, intermediate status, status information, print line, set-time, acknowledgement) wherever it lies outside the exchange's reply set} and with refused connection attempts; all pairs of faults for the shorter operations and sampled pairs/triples otherwise; each followed by a further operation. Also: a terminal reporting the serial in the other letter case, and 1 ms..1 s delays between and inside packets (non-faults: the operation must succeed without reconnecting). Oracle: connection checker R1-R4 (DESIGN D.4) over the per-connection event log. Non-trivial = every faulty run; single faults are a duplicate-free enumeration, multi-fault runs hashed.".into();
         report.assumptions = vec!["after injecting a fault the simulated terminal is passive on that connection, so every byte recorded there afterwards was written by the client".into(), "silence during the handshake is bounded by the fix of finding D6 (otherwise those runs end at the watchdog and are attributed to C10)".into()];
     } else {
         report.rule = "every public operation x (a) a one-shot silence at every terminal->client packet position (fault-free numbering), (b) a persistent silence at every distinct (exchange kind, packet) point incl. the handshake, (c) a connect that never resolves / always never resolves / is always refused, (d) pairs: a one-shot silence followed by a second silence / close / garbage / connect stall on the retried attempt, and silence on a slow terminal; read_card_timeout 0..255 exhaustively with a terminal that stays silent for exactly its own read-card time-out and then answers 'abort 6C' 100 ms later (must be waited for: NoCardPresented); configuration extremes (password 0/999999, amount 0/10^12-1, transactions_max_num 0/usize::MAX, terminal id empty/non-numeric/8 digits, currency 0/9999). Time is tokio's paused clock. Oracle: every call returns before one virtual day and does not panic. Duplicate-free enumeration.".into();
